@@ -30,9 +30,9 @@ PROPS = {
     'C08': {
         'e3_always': ['atom_from_stream'],
         'e3': ['atom_from_stream'],
-        'units': ['ser'],
-        'decided': 'length-prefix encoder (atom_size_blob) equals the consensus prefix table; atom decoder (atom_from_stream, Stream::read, int_from_bytes, get_u32) returns exactly what the consensus decoder returns and rejects what it rejects',
-        'not_covered': ['op-stack walker of sexp_from_stream / sexp_to_stream iterator (Box<dyn> stack)', 'byte-equality with clvmr rests on a transcribed spec'],
+        'units': ['ser', 'serout'],
+        'decided': 'serialiser: every chunk SExpToBytesIterator::next emits is the next piece of the consensus serialisation ser(tree) of its work stack (0xff for a pair then its children, enc_atom for an atom), with the length-prefix encoder (atom_size_blob) equal to the consensus prefix table; lemma dec_enc_atom: the decoder contract reads back exactly what the encoder contract writes, for every length class; atom decoder (atom_from_stream, Stream::read, int_from_bytes, get_u32) returns exactly what the consensus decoder returns and rejects what it rejects',
+        'not_covered': ['op-stack walker of sexp_from_stream (Box<dyn> stack)', 'the for loop of sexp_to_stream that writes the chunks to the Stream (Stream::write)', 'byte-equality with clvmr rests on a transcribed spec'],
     },
     'C06': {
         'e3_always': ['choose_path'],
